@@ -162,6 +162,7 @@ def compare(schema, text, resources, main=MAIN, expect_reject=False):
         os.rename(link, os.path.join(store, "stored-main.conf"))
         os.symlink(os.path.join(store, "stored-main.conf"), link)
         real_main = link            # and it is named by path, not by URL
+    _decoys(resources, main, real_res, real_main)
     try:
         split = outcome(loadcheck.real_load_url(schema, real_main))
     finally:
@@ -185,6 +186,36 @@ def compare(schema, text, resources, main=MAIN, expect_reject=False):
         if d:
             out.append(("include-changes-tree", d))
     return inline, split, out
+
+
+def _decoys(resources, main, real_res, real_main):
+    """Files that nothing refers to: for every literal relative '%include' reference written in a
+    resource that lives in another directory than the main file, a harmless file under the same
+    reference as seen FROM THE MAIN FILE'S directory (unless a resource lives there)."""
+    import os
+    from urllib.request import url2pathname
+    mdir = main.rsplit("/", 1)[0]
+    real_mdir = os.path.dirname(url2pathname(real_main[len("file://"):])) if str(real_main).startswith("file://") \
+        else os.path.dirname(os.path.realpath(real_main))
+    for url, text in resources.items():
+        if url.rsplit("/", 1)[0] == mdir:
+            continue
+        for line in text.split("\n"):
+            w = line.strip()
+            if not w.startswith("%include ") or "$" in w or ":" in w:
+                continue
+            ref = w[len("%include "):].strip()
+            if model.url_join(main, ref) in resources or model.url_join(url, ref) == model.url_join(main, ref):
+                continue
+            path = os.path.normpath(os.path.join(real_mdir, *ref.split("/")))
+            if os.path.exists(path) or not path.startswith(os.path.dirname(real_mdir)):
+                continue
+            try:
+                os.makedirs(os.path.dirname(path), exist_ok=True)
+                with open(path, "w", encoding="utf-8") as f:
+                    f.write("# nothing refers to this file\n")
+            except OSError:
+                pass
 
 
 def evaluate(case):
@@ -285,7 +316,7 @@ def run_shard(spec):
             if not text.strip():
                 continue
             for _k in range(2):
-                resources, cuts = gen.cut_includes(rng, text, MAIN)
+                resources, cuts = gen.cut_includes(rng, text, MAIN, absolute_refs=True)
                 if not cuts:
                     continue
                 res.evaluations += 1
